@@ -201,6 +201,25 @@ def parse_states(dump, limit, r):
     yield st
 
 
+def float32_pass(ctx, dump, n, lo, hi):
+  import subprocess
+  import sys
+  env = dict(os.environ)
+  env.pop('XLA_FLAGS', None)
+  p = subprocess.run([sys.executable, os.path.join(os.path.dirname(__file__), 'c18_f32.py'), dump, str(n),
+                      str(ctx.seed), str(lo), str(hi)], capture_output=True, text=True, env=env, timeout=1800)
+  m = re.search(r'^RESULT (.*)$', p.stdout, re.M)
+  if not m:
+    raise tlc.MachineryError('float32 pass failed:\n' + p.stdout[-1000:] + p.stderr[-2000:])
+  out = json.loads(m.group(1))
+  ctx.extra['float32_states_replayed'] = out['evaluated']
+  ctx.extra['float32_constant_columns'] = out['constant_columns']
+  ctx.evaluations += out['evaluated']
+  ctx.traces += out['evaluated']
+  for v in out['violations'][:5]:
+    ctx.violation('float32: ' + v['what'], v, {'call': 'running_statistics', 'predicate': 'float32'})
+
+
 def random_traces(ctx, r, n, label, bounds_names, bounds):
   """Long random integer histories on the real code, validated by RunningStatsTrace.tla."""
   import jax
@@ -294,6 +313,8 @@ def run(ctx):
       rp.replay(st, label)
       n += 1
     ctx.extra[f'{label}_states_replayed'] = n
+    if bounds != 'mixed':
+      float32_pass(ctx, dump, 300 if q else 3000, float(bounds[0]), float(bounds[1]))
   random_traces(ctx, r, 40 if q else 1500, 'c18-trace', ('RHalf', 'RThreeHalves'), half)
   ctx.exhaustive = False
 
